@@ -60,7 +60,16 @@ LEVEL_NOTE = ("proved: shm api (src/cascade/shm/api.py through the generated tab
               "router._spawn_local). Sampled values: a deterministic sweep (every class x every leaf x every boundary value / structured "
               "identifier / container shape / every non-JSON class for the Any leaves) plus boundary-biased random values generated from "
               "the type annotations; decoded objects are compared FIELD BY FIELD (never by repr), order-sensitive where the order carries "
-              "meaning; all differences of a case are reported, each with the observed alteration. The frame-sequence parser of "
+              "meaning; all differences of a case are reported, each with the observed alteration. WHAT is compared with what: shm -- the "
+              "decoded message with the CASE's values; executor messages and controller reports -- the decoded message with the object the "
+              "real constructor made (fields, ==, hash) AND with the case's values laid into an instance made without running any "
+              "constructor code (object.__new__ / model_construct), so that a constructor-level alteration (__post_init__, validator) is "
+              "reported as `case-value:*`; gateway / job JSON -- the parsed message with the constructed one (pydantic's own coercions at "
+              "construction are not judged), and a retrieved result VALUE through api.decoded_result (base64 + cloudpickle) with the case's "
+              "value. The shm wire tie sends its requests through the client's entry points allocate / get / purge / status / "
+              "close_callback (called with the case's values; AllocatedBuffer replaced by a recorder) where the request class has one, "
+              "through _send_command otherwise, and checks what the entry point hands on (shmid, l, deser_fun, create, the close callback's "
+              "key and reader id, the status) against the response. The frame-sequence parser of "
               "comms.Listener is proved under C06. String lengths compared with the real code reach 70 000 characters; the refusal of a "
               "string of 2^32 characters is exercised on the real code with a str whose len() says 2^32 (the model's bound is the theorem).")
 TECHNIQUE = ("Lean 4 proof by induction over field sequences (generic codec), mutual structural induction over nested values (JSON model) + AST "
@@ -74,7 +83,8 @@ RULE = ("shm: (a) deterministic sweep: every class x every field x every boundar
         "lengths 255/256/65535/65536/70000 for keys; enum members and non-members; wrong-typed values) with distinct values in the "
         "other fields; (b) random messages, boundary-biased; (c) decoding of truncated / corrupted / re-tagged byte strings; (d) a str "
         "whose len() is 2^32 in every class. "
-        "shm wire: request/response pairs of in-domain messages through the real client and server over UDP: every class x every string "
+        "shm wire: request/response pairs of in-domain messages through the real client (its entry points allocate / get / purge / status / "
+        "close_callback, else _send_command) and server over UDP: every class x every string "
         "field x lengths 0..70000 around 1019/1020 (the old buffer), 4096, 65507 (sampled: mostly the short ones), for six classes the "
         "exact length that fills the largest datagram and one more, random pairs. "
         "sampled families exec/report/gateway/job: (a) deterministic sweep, the same for every seed: per message class a base value with "
@@ -87,7 +97,9 @@ RULE = ("shm: (a) deterministic sweep: every class x every field x every boundar
         "integers beyond 64 bit, lone surrogate; payload frames bytes / memoryview / bytearray / str over real zmq sockets; job ids with "
         "commas through the real Reporter; (b) random values generated from the real type annotations with the same shapes frequent "
         "(a third of the JSON cases carry non-JSON values in their Any leaves); (c) fixed probes. any: values of type Any straight "
-        "through orjson against encAny / decAny / render and the predicates Native / Lossless / Refused. A failing case is shrunk "
+        "through orjson against encAny / decAny / render and the predicates Native / Lossless / Refused. gateway ResultRetrievalResponse: "
+        "in half of the cases the result text is base64 of the pickle of a generated value (JSON-native or not: bytes, tuples, sets, "
+        "non-str keys, datetimes ...), which api.decoded_result must give back. A failing case is shrunk "
         "greedily before it is reported. non-trivial = message with at least one field carrying a non-default value; distinct by content hash")
 ASSUMPTIONS = [
     "the translator recognises only declarative module-level code in api.py; behaviour installed at run time (monkeypatching inside a function) is seen by the byte-level comparison only",
@@ -638,6 +650,8 @@ def _run_sampled(ctx, n_per_family, with_model=False, batch=None):
             ctx.nontrivial_keys.add(hashlib.sha1(json.dumps(case, sort_keys=True).encode()).hexdigest())
         ctx.count(f"{fam}:{r['status']}")
         ctx.count(f"{fam}:cls:{case['cls']}")
+        if "result_value" in case:
+            ctx.count("gateway:result_value_through_decoded_result")
         ctx.count(f"{fam}:pipe:{case['pipe']}")
         for p in r["domain_problems"]:
             ctx.count(f"{fam}:outside-domain:{p}")
@@ -914,9 +928,15 @@ def wire_eval(w, case, classes):
     for attempt in range(3):
         out = w.exchange(req, rsp)
         # a datagram that never arrives (time-out on a loaded machine: UDP may drop) is confirmed by repeating the exchange
-        if not any(o["got"] is None and o["sender_raised"] is None and o["error"] not in (None, "not-run") for o in out.values()):
+        if not any(o["got"] is None and o["sender_raised"] is None and o["error"] not in (None, "not-run") for o in (out["c2s"], out["s2c"])):
             break
     res, viols = {}, []
+    wr = out.get("wrapper")
+    if wr is not None:
+        res["wrapper"] = wr["name"] + (":skipped" if "skipped" in wr else "")
+        for what, got, want in wr.get("problems", []):
+            viols.append(({"kind": "client-wrapper-alters", "family": "shm-wire", "cls": case[0]["cls"], "wrapper": wr["name"], "what": what},
+                          f"client.{wr['name']}({_show(case[0], classes)}) answered with {_show(case[1], classes)}: {what} is {got}, the response / the call says {want}"))
     for d, sent_case, sent in (("c2s", case[0], req), ("s2c", case[1], rsp)):
         o = out[d]
         if o["error"] == "not-run":
@@ -989,9 +1009,14 @@ def _run_wire(ctx, with_model, n, batch=None):
             except Exception as e:
                 ctx.count("wire:harness_error:" + type(e).__name__)
                 results.append(None)
+                if "harness" not in reported:       # a case the harness could not evaluate is reported, never skipped silently
+                    reported.add("harness")
+                    ctx.violation({"kind": "harness-error", "family": "shm-wire", "exc": type(e).__name__},
+                                  {"family": "shm-wire", "pair": [case[0], case[1]]}, f"shm wire exchange could not be evaluated: {type(e).__name__}: {e}"[:300])
                 continue
             results.append(res)
             ctx.case({"family": "shm-wire", "req": _show(case[0], classes), "rsp": _show(case[1], classes)}, nontrivial=True, sample_every=50)
+            ctx.count("wire:request_sent_by:" + ("client." + res["wrapper"] if res.get("wrapper") else "_send_command"))
             for d in ("c2s", "s2c"):
                 if res.get(d) is not None:
                     ctx.count(f"wire:{d}:" + ("delivered" if "ok" in res[d] else res[d]["err"]))
